@@ -229,7 +229,7 @@ def eval_case(lane, client, case):
     from harness import gen as _gen
     _gen.take_failures()
     import signal
-    limit = int(os.environ.get('VERIF_CASE_SECONDS', '180'))
+    limit = int(os.environ.get('VERIF_CASE_SECONDS', '120'))
 
     def _too_long(signum, frame):
         raise CaseTimeout()
